@@ -31,8 +31,10 @@ def rslice(rng, n):
     f = lambda: rng.choice([None, None, rng.randrange(-n - 2, n + 3)])
     return [f(), f(), rng.choice([None, None, 1, 1, -1, 2, -2, 3, 0])]
 
-def gen_step(rng, n, tier):
-    op = rng.choice(MUTS)
+OVERLAPPING = ['11', '00', '111', '000', '101', '010', '1010', '0101', '1001', '11011', '0000', '1111']
+
+def gen_step(rng, n, tier, op=None, data=None):
+    op = op or rng.choice(MUTS)
     small = lambda: rand_bits(rng, rng.choice([0, 1, 2, 3, 8, 9, 16]))
     s = {'op': op}
     if op in ('insert', 'overwrite'):
@@ -58,7 +60,9 @@ def gen_step(rng, n, tier):
         if r < 0.15: pos = None
         elif r < 0.4: pos = rpos(rng, n)
         elif r < 0.7: pos = {'list': [rpos(rng, n) for _ in range(rng.randrange(0, 5))]}
-        else: pos = {'range': [rng.randrange(-n - 2, n + 3), rng.randrange(-n - 2, n + 3), rng.choice([1, 1, 2, -1, -2, 3])]}
+        else:
+            rb = lambda: rng.choice([0, 1, n - 1, n, n + 1, n + 2, -1, -n, -n - 1, n // 2, rng.randrange(-n - 2, n + 3)])
+            pos = {'range': [rb(), rb(), rng.choice([1, 1, 2, 3, -1, -1, -2, -3])]}
         s.update(pos=pos, v=rng.choice([0, 1, True, False, 5]))
     elif op == 'byteswap':
         a, b = ropt_range(rng, n)
@@ -73,7 +77,12 @@ def gen_step(rng, n, tier):
     elif op == 'replace':
         pl = rng.choice([1, 2, 3, 8])
         a, b = ropt_range(rng, n)
-        s.update(old=rand_bits(rng, pl), new=small(), start=a, end=b, count=rng.choice([None, None, 0, 1, 2]), ba=rng.choice([None, False, True]))
+        r = rng.random()
+        if r < 0.35: old = rng.choice(OVERLAPPING)                    # self-overlapping patterns: replace must take non-overlapping matches
+        elif r < 0.6 and data and len(data) >= 2:                     # a pattern that does occur
+            i = rng.randrange(0, len(data) - 1); old = data[i:i + rng.choice([1, 2, 3, 4, 8])]
+        else: old = rand_bits(rng, pl)
+        s.update(old=old, new=small(), start=a, end=b, count=rng.choice([None, None, 0, 1, 2, 2, 3, 4]), ba=rng.choice([None, False, True]))
     return s
 
 def gen_cases(rng, tier):
@@ -81,6 +90,21 @@ def gen_cases(rng, tier):
     for _ in range(N):
         n = rng.choice([0, 1, 2, 5, 8, 9, 16, 17, 24, 31, 32, 33, 40, 64, 65]) if rng.random() < 0.85 else rng.randrange(0, 200)
         yield {'op': 'program', 'cls': rng.choice(MUTABLE), 'bits': rand_bits(rng, n), 'steps': [gen_step(rng, max(n, 4), tier) for _ in range(rng.randrange(1, 13))]}
+    # single steps of every operation on fresh contents, so that the boundary values are exact for the current length
+    for op in MUTS:
+        for _ in range(30 if tier == 'quick' else 400):
+            n = rng.choice([0, 1, 2, 3, 5, 8, 9, 10, 16, 17, 24, 32, 33])
+            bits = rand_bits(rng, n)
+            yield {'op': 'program', 'cls': rng.choice(MUTABLE), 'bits': bits, 'steps': [gen_step(rng, n, tier, op, bits)]}
+    # set / invert over every boundary range(start, stop, step) of one short content (the range fast path vs the per-position loop)
+    for n in ([6] if tier == 'quick' else [1, 6, 9]):
+        bv = sorted({-n - 1, -n, -1, 0, 1, n - 1, n, n + 1, n + 2})
+        bits = rand_bits(rng, n, 'rand')
+        for a in bv:
+            for b in bv:
+                for st in (1, 2, -1, -2):
+                    op = 'set' if (a + b + st) % 2 else 'invert'
+                    yield {'op': 'program', 'cls': 'BitArray', 'bits': bits, 'steps': [{'op': op, 'pos': {'range': [a, b, st]}, 'v': (a + b) % 2}]}
     if tier == 'thorough':
         for n in range(0, 6):
             for v in range(1 << n):
